@@ -95,7 +95,10 @@ TEXT = {
           "heapify_down from 'broken between one position and its children' (siftDown_ok), so push, pop and remove keep it "
           "(C20_heap_push_ok, C20_heap_pop_ok, C20_heap_remove_ok), every heap reachable from the empty one is in heap order "
           "(C20_heap_reachable_ok), and the element returned by peek / pop is at least every element of the array (C20_heap_peek_max). "
-          "The probe-chain refinement of the hash table is not proved (correspondence only).",
+          "The table mirror never loses or duplicates an element: the backward shift of a removal only moves elements (shiftBack_perm), a "
+          "successful insert enumerates the old elements plus the new one and a successful remove the old elements minus one with the "
+          "key asked for (C20_hset_insert_perm, C20_hset_remove_perm; unsuccessful calls change nothing). That every stored element is "
+          "reachable by its probe sequence (the probe-chain invariant) is not proved (correspondence only).",
   "design_ref": "5.20",
   "note": "proof covers the reference semantics, the heap mirror (multiset and heap order for every history) and basic lemmas of the table mirror; the refinement mirror -> reference is checked per history (20k histories per quick run with forced collisions, wrap-around, growth), not proved; elements abstracted to (identity, reported hash)",
   "technique": "Lean 4 proved reference semantics + slot-exact mirror model + history-based differential correspondence",
